@@ -2,10 +2,12 @@ package main
 
 import (
 	"context"
+	"errors"
 	"fmt"
 	"math/rand"
 	"strings"
 	"sync"
+	"time"
 
 	"github.com/cockroachdb/pebble/vfs"
 	"github.com/jamf/regatta/regattapb"
@@ -36,6 +38,11 @@ type simHost struct {
 	leaderless bool
 	held       []heldProposal
 	registered chan struct{}
+	// a consensus read made while holdRead is set executes at once but returns only when releaseRead is closed (a slow
+	// client, a long ReadIndex round trip)
+	holdRead    bool
+	readHeld    chan struct{}
+	releaseRead chan struct{}
 }
 
 type heldProposal struct {
@@ -148,13 +155,23 @@ func (h *simHost) SyncRead(_ context.Context, _ uint64, req interface{}) (interf
 		h.calls = append(h.calls, "sync-dropped")
 		return nil, dragonboat.ErrShardNotReady
 	}
+	h.mu.Lock()
 	h.calls = append(h.calls, "sync")
 	i := h.r.Intn(len(h.reps))
 	if _, err := h.catchUp(i, len(h.log)); err != nil { // ReadIndex: applied >= commit index at the start of the read
+		h.mu.Unlock()
 		return nil, err
 	}
 	h.lastRead = h.applied[i]
-	return h.reps[i].f.Lookup(req)
+	v, err := h.reps[i].f.Lookup(req)
+	hold := h.holdRead
+	h.holdRead = false
+	h.mu.Unlock()
+	if hold {
+		h.readHeld <- struct{}{}
+		<-h.releaseRead
+	}
+	return v, err
 }
 
 func (h *simHost) StaleRead(_ uint64, req interface{}) (interface{}, error) {
@@ -196,270 +213,286 @@ func runC10(args []string) error {
 	ctx := context.Background()
 	seen := map[string]bool{}
 	for c := 0; c < n; c++ {
-		h, err := newSimHost(r, 3)
+		err := func() error {
+			h, err := newSimHost(r, 3)
+			if err != nil {
+				return err
+			}
+			g := newFsmGen(r, Hist{})
+			at := table.Table{Name: "t", ClusterID: 10001}.AsActive(h)
+			var steps []gStep
+			var obs []string
+			var descr []string
+			var lastRev uint64
+			lagged, emptyBranch := false, false
+			nops := 6 + r.Intn(15)
+			for o := 0; o < nops; o++ {
+				in := func() map[string]any { return map[string]any{"script": strings.Join(descr, " ; ")} }
+				if r.Intn(8) == 0 && len(h.log) > 0 {
+					// a linearizable read on a replica that has lost its leader: an error (retry) is fine, an answer has to
+					// reflect every acknowledged write
+					rq := g.rng()
+					h.leaderless = true
+					resp, rerr := at.Range(ctx, &regattapb.RangeRequest{Table: []byte("t"), Key: rq.Key, RangeEnd: rq.End, Limit: rq.Limit, KeysOnly: rq.KeysOnly, CountOnly: rq.CountOnly, Linearizable: true})
+					var tresp *regattapb.TxnResponse
+					var terr error
+					if rerr != nil {
+						tresp, terr = at.Txn(ctx, &regattapb.TxnRequest{Table: []byte("t"), Success: []*regattapb.RequestOp{{Request: &regattapb.RequestOp_RequestRange{RequestRange: rq.pb()}}}})
+					}
+					h.leaderless = false
+					ho.Inc("read-linearizable-without-leader")
+					ref, err := h.referenceAt(len(h.log))
+					if err != nil {
+						return err
+					}
+					want, err := ref.read(rq)
+					ref.close()
+					if err != nil {
+						return err
+					}
+					descr = append(descr, fmt.Sprintf("leaderless %s lin=true", rq))
+					if rerr == nil && oL(oKVs(resp.Kvs), oBool(resp.More), oN(resp.Count)) != oRange(want) {
+						sum.violate(c, "a linearizable read answered while the replica had no leader misses acknowledged writes", in(), fmt.Sprintf("served from prefix %d of %d", h.lastRead, len(h.log)))
+					}
+					if rerr != nil && terr == nil && len(tresp.Responses) == 1 && oRange(tresp.Responses[0].GetResponseRange()) != oRange(want) {
+						sum.violate(c, "a read-only transaction answered while the replica had no leader misses acknowledged writes", in(), fmt.Sprintf("served from prefix %d of %d", h.lastRead, len(h.log)))
+					}
+					continue
+				}
+				if r.Intn(5) == 0 {
+					// two clients write at the same time: both proposals are applied by ONE Update call on the leader; the
+					// responses must still be those of the two writes taken one after the other in revision order
+					k1 := g.key()
+					k2 := k1
+					if r.Intn(3) == 0 {
+						k2 = g.key()
+					}
+					pa := &regattapb.PutRequest{Table: []byte("t"), Key: k1, Value: g.val(), PrevKv: r.Intn(3) > 0}
+					pb := &regattapb.PutRequest{Table: []byte("t"), Key: k2, Value: g.val(), PrevKv: true}
+					descr = append(descr, fmt.Sprintf("concurrently{put[%s=%s prev=%v] put[%s=%s prev=%v]}", q(pa.Key), q(pa.Value), pa.PrevKv, q(pb.Key), q(pb.Value), pb.PrevKv))
+					ho.Inc("concurrent-put-pair")
+					type putRes struct {
+						resp *regattapb.PutResponse
+						err  error
+					}
+					ach := make(chan putRes, 1)
+					h.mu.Lock()
+					h.holdNext = true
+					h.mu.Unlock()
+					go func() {
+						resp, err := at.Put(ctx, pa)
+						ach <- putRes{resp, err}
+					}()
+					<-h.registered
+					respB, err := at.Put(ctx, pb)
+					if err != nil {
+						return &implErr{err: err, script: strings.Join(descr, " ; ")}
+					}
+					ra := <-ach
+					if ra.err != nil {
+						return &implErr{err: ra.err, script: strings.Join(descr, " ; ")}
+					}
+					for j, pr := range []struct {
+						p    *regattapb.PutRequest
+						resp *regattapb.PutResponse
+					}{{pa, ra.resp}, {pb, respB}} {
+						idx := h.log[len(h.log)-2+j].Index
+						rev := pr.resp.Header.GetRevision()
+						if rev != idx || rev <= lastRev {
+							sum.violate(c, "acknowledged mutation reports a revision that is not its log position", in(), fmt.Sprintf("revision %d index %d previous %d (concurrent pair)", rev, idx, lastRev))
+						}
+						lastRev = idx
+						cmd, _ := wireNormal(gCmd{Kind: regattapb.Command_PUT, K: pr.p.Key, V: pr.p.Value, Prev: pr.p.PrevKv})
+						steps = append(steps, gStep{Kind: 0, Entries: []gEntry{{Idx: idx, Cmd: cmd}}})
+						prev := oL()
+						if pr.resp.PrevKv != nil {
+							prev = oL(oKV(pr.resp.PrevKv))
+						}
+						obs = append(obs, oL(oL(oL(oU(1), oBool(true), oU(rev), oL(oL(oN(1), prev)))), oU(idx)))
+					}
+					continue
+				}
+				switch k := r.Intn(10); {
+				case k < 3: // put
+					p := &regattapb.PutRequest{Table: []byte("t"), Key: g.key(), Value: g.val(), PrevKv: r.Intn(2) == 0}
+					descr = append(descr, fmt.Sprintf("put[%s=%s prev=%v]", q(p.Key), q(p.Value), p.PrevKv))
+					resp, err := at.Put(ctx, p)
+					if err != nil {
+						return &implErr{err: err, script: strings.Join(descr, " ; ")}
+					}
+					ho.Inc("put")
+					idx := h.log[len(h.log)-1].Index
+					rev := resp.Header.GetRevision()
+					if rev != idx || rev <= lastRev {
+						sum.violate(c, "acknowledged mutation reports a revision that is not its log position", in(), fmt.Sprintf("revision %d index %d previous %d", rev, idx, lastRev))
+					}
+					lastRev = idx
+					cmd, _ := wireNormal(gCmd{Kind: regattapb.Command_PUT, K: p.Key, V: p.Value, Prev: p.PrevKv})
+					steps = append(steps, gStep{Kind: 0, Entries: []gEntry{{Idx: idx, Cmd: cmd}}})
+					prev := oL()
+					if resp.PrevKv != nil {
+						prev = oL(oKV(resp.PrevKv))
+					}
+					obs = append(obs, oL(oL(oL(oU(1), oBool(true), oU(rev), oL(oL(oN(1), prev)))), oU(idx)))
+				case k < 5: // delete range
+					d := &regattapb.DeleteRangeRequest{Table: []byte("t"), Key: g.key(), RangeEnd: g.end(50), PrevKv: r.Intn(2) == 0, Count: r.Intn(2) == 0}
+					descr = append(descr, fmt.Sprintf("delete[%s,%s prev=%v cnt=%v]", q(d.Key), q(d.RangeEnd), d.PrevKv, d.Count))
+					resp, err := at.Delete(ctx, d)
+					if err != nil {
+						return &implErr{err: err, script: strings.Join(descr, " ; ")}
+					}
+					ho.Inc("delete")
+					idx := h.log[len(h.log)-1].Index
+					rev := resp.Header.GetRevision()
+					if rev != idx || rev <= lastRev {
+						sum.violate(c, "acknowledged mutation reports a revision that is not its log position", in(), fmt.Sprintf("revision %d index %d previous %d", rev, idx, lastRev))
+					}
+					lastRev = idx
+					cmd, _ := wireNormal(gCmd{Kind: regattapb.Command_DELETE, K: d.Key, End: d.RangeEnd, Prev: d.PrevKv, Count: d.Count})
+					steps = append(steps, gStep{Kind: 0, Entries: []gEntry{{Idx: idx, Cmd: cmd}}})
+					obs = append(obs, oL(oL(oL(oU(1), oBool(true), oU(rev), oL(oL(oN(2), oN(resp.Deleted), oKVs(resp.PrevKvs))))), oU(idx)))
+				case k < 8: // transaction
+					t := g.txn()
+					if r.Intn(4) == 0 {
+						t.Succ, t.Fail = nil, nil
+					}
+					if r.Intn(5) == 0 { // read-only
+						var su, fa []gOp
+						for _, o := range t.Succ {
+							if o.Kind == 0 {
+								su = append(su, o)
+							}
+						}
+						for _, o := range t.Fail {
+							if o.Kind == 0 {
+								fa = append(fa, o)
+							}
+						}
+						t.Succ, t.Fail = su, fa
+					}
+					req := &regattapb.TxnRequest{Table: []byte("t")}
+					for _, x := range t.Cmps {
+						req.Compare = append(req.Compare, x.pb())
+					}
+					for _, x := range t.Succ {
+						req.Success = append(req.Success, x.pb())
+					}
+					for _, x := range t.Fail {
+						req.Failure = append(req.Failure, x.pb())
+					}
+					descr = append(descr, fmt.Sprintf("txn if%v then%v else%v", t.Cmps, t.Succ, t.Fail))
+					ncalls, nlog := len(h.calls), len(h.log)
+					resp, err := at.Txn(ctx, req)
+					if err != nil {
+						return &implErr{err: err, script: strings.Join(descr, " ; ")}
+					}
+					if req.IsReadonly() {
+						ho.Inc("txn-readonly")
+						if len(h.log) != nlog || len(h.calls) != ncalls+1 || h.calls[ncalls] != "sync" {
+							sum.violate(c, "read-only transaction not served through the linearizable read path", in(), fmt.Sprint(h.calls[ncalls:]))
+						}
+						if h.lastRead != len(h.log) {
+							sum.violate(c, "read-only transaction served from a state that misses acknowledged writes", in(), nil)
+						}
+						steps = append(steps, gStep{Kind: 3, Cmps: t.Cmps, Succ: t.Succ, Fail: t.Fail})
+						obs = append(obs, oL(oBool(resp.Succeeded), oResps(resp.Responses)))
+					} else {
+						ho.Inc("txn")
+						idx := h.log[len(h.log)-1].Index
+						rev := resp.Header.GetRevision()
+						executed := t.Succ
+						if !resp.Succeeded {
+							executed = t.Fail
+						}
+						if len(executed) == 0 {
+							emptyBranch = true
+							ho.Inc("txn-empty-branch")
+						}
+						if rev != idx || rev <= lastRev {
+							sum.violate(c, "acknowledged mutation reports a revision that is not its log position", in(), fmt.Sprintf("revision %d index %d previous %d (executed branch has %d operations)", rev, idx, lastRev, len(executed)))
+						}
+						lastRev = idx
+						cmd, _ := wireNormal(gCmd{Kind: regattapb.Command_TXN, Cmps: t.Cmps, Succ: t.Succ, Fail: t.Fail})
+						steps = append(steps, gStep{Kind: 0, Entries: []gEntry{{Idx: idx, Cmd: cmd}}})
+						val := uint64(0)
+						if resp.Succeeded {
+							val = 1
+						}
+						obs = append(obs, oL(oL(oL(oU(val), oBool(true), oU(rev), oResps(resp.Responses))), oU(idx)))
+					}
+				default: // range read
+					rq := g.rng()
+					lin := r.Intn(2) == 0
+					req := &regattapb.RangeRequest{Table: []byte("t"), Key: rq.Key, RangeEnd: rq.End, Limit: rq.Limit, KeysOnly: rq.KeysOnly, CountOnly: rq.CountOnly, Linearizable: lin}
+					descr = append(descr, fmt.Sprintf("%s lin=%v", rq, lin))
+					ncalls := len(h.calls)
+					resp, err := at.Range(ctx, req)
+					if err != nil {
+						return &implErr{err: err, script: strings.Join(descr, " ; ")}
+					}
+					got := oL(oKVs(resp.Kvs), oBool(resp.More), oN(resp.Count))
+					if lin {
+						ho.Inc("read-linearizable")
+						if h.calls[ncalls] != "sync" {
+							sum.violate(c, "linearizable read served through the stale read path", in(), nil)
+						}
+						steps = append(steps, gStep{Kind: 1, R: rq})
+						obs = append(obs, got)
+					} else {
+						ho.Inc("read-serializable")
+						if h.lastRead < len(h.log) {
+							lagged = true
+							hl.Inc(fmt.Sprintf("behind-by-%d", len(h.log)-h.lastRead))
+						} else {
+							hl.Inc("behind-by-0")
+						}
+					}
+					// oracle for both: the answer is the answer of the state after the prefix the serving replica had applied
+					ref, err := h.referenceAt(h.lastRead)
+					if err != nil {
+						return err
+					}
+					want, err := ref.read(rq)
+					ref.close()
+					if err != nil {
+						return err
+					}
+					if oRange(want) != got {
+						sum.violate(c, "read does not reflect a prefix of the acknowledged writes", in(), fmt.Sprintf("prefix %d of %d", h.lastRead, len(h.log)))
+					}
+					if lin && h.lastRead != len(h.log) {
+						sum.violate(c, "linearizable read served from a state that misses acknowledged writes", in(), nil)
+					}
+				}
+			}
+			h.close()
+			d := strings.Join(descr, " ; ")
+			normalizeSteps(steps)
+			cf.Add(fmt.Sprintf("{| f_steps := %s; f_impl := %s |}", stepsCoq(steps), oLs(obs)), stepsDescr(steps))
+			if !seen[d] && lagged && emptyBranch {
+				sum.DistinctNontrivial++
+			}
+			seen[d] = true
+			if len(sum.Samples) < 3 && lagged && emptyBranch {
+				sum.Samples = append(sum.Samples, d)
+			}
+			return nil
+		}()
+		var ie *implErr
+		if errors.As(err, &ie) {
+			// the simulated host accepts and applies every proposal: an error here is produced by the table layer or
+			// the state machine itself (e.g. a result that cannot be decoded)
+			sum.violate(c, "a request that was committed and applied fails at the caller", map[string]any{"script": ie.script}, ie.err.Error())
+			continue
+		}
 		if err != nil {
 			return err
 		}
-		g := newFsmGen(r, Hist{})
-		at := table.Table{Name: "t", ClusterID: 10001}.AsActive(h)
-		var steps []gStep
-		var obs []string
-		var descr []string
-		var lastRev uint64
-		lagged, emptyBranch := false, false
-		nops := 6 + r.Intn(15)
-		for o := 0; o < nops; o++ {
-			in := func() map[string]any { return map[string]any{"script": strings.Join(descr, " ; ")} }
-			if r.Intn(8) == 0 && len(h.log) > 0 {
-				// a linearizable read on a replica that has lost its leader: an error (retry) is fine, an answer has to
-				// reflect every acknowledged write
-				rq := g.rng()
-				h.leaderless = true
-				resp, rerr := at.Range(ctx, &regattapb.RangeRequest{Table: []byte("t"), Key: rq.Key, RangeEnd: rq.End, Limit: rq.Limit, KeysOnly: rq.KeysOnly, CountOnly: rq.CountOnly, Linearizable: true})
-				var tresp *regattapb.TxnResponse
-				var terr error
-				if rerr != nil {
-					tresp, terr = at.Txn(ctx, &regattapb.TxnRequest{Table: []byte("t"), Success: []*regattapb.RequestOp{{Request: &regattapb.RequestOp_RequestRange{RequestRange: rq.pb()}}}})
-				}
-				h.leaderless = false
-				ho.Inc("read-linearizable-without-leader")
-				ref, err := h.referenceAt(len(h.log))
-				if err != nil {
-					return err
-				}
-				want, err := ref.read(rq)
-				ref.close()
-				if err != nil {
-					return err
-				}
-				descr = append(descr, fmt.Sprintf("leaderless %s lin=true", rq))
-				if rerr == nil && oL(oKVs(resp.Kvs), oBool(resp.More), oN(resp.Count)) != oRange(want) {
-					sum.violate(c, "a linearizable read answered while the replica had no leader misses acknowledged writes", in(), fmt.Sprintf("served from prefix %d of %d", h.lastRead, len(h.log)))
-				}
-				if rerr != nil && terr == nil && len(tresp.Responses) == 1 && oRange(tresp.Responses[0].GetResponseRange()) != oRange(want) {
-					sum.violate(c, "a read-only transaction answered while the replica had no leader misses acknowledged writes", in(), fmt.Sprintf("served from prefix %d of %d", h.lastRead, len(h.log)))
-				}
-				continue
-			}
-			if r.Intn(5) == 0 {
-				// two clients write at the same time: both proposals are applied by ONE Update call on the leader; the
-				// responses must still be those of the two writes taken one after the other in revision order
-				k1 := g.key()
-				k2 := k1
-				if r.Intn(3) == 0 {
-					k2 = g.key()
-				}
-				pa := &regattapb.PutRequest{Table: []byte("t"), Key: k1, Value: g.val(), PrevKv: r.Intn(3) > 0}
-				pb := &regattapb.PutRequest{Table: []byte("t"), Key: k2, Value: g.val(), PrevKv: true}
-				descr = append(descr, fmt.Sprintf("concurrently{put[%s=%s prev=%v] put[%s=%s prev=%v]}", q(pa.Key), q(pa.Value), pa.PrevKv, q(pb.Key), q(pb.Value), pb.PrevKv))
-				ho.Inc("concurrent-put-pair")
-				type putRes struct {
-					resp *regattapb.PutResponse
-					err  error
-				}
-				ach := make(chan putRes, 1)
-				h.mu.Lock()
-				h.holdNext = true
-				h.mu.Unlock()
-				go func() {
-					resp, err := at.Put(ctx, pa)
-					ach <- putRes{resp, err}
-				}()
-				<-h.registered
-				respB, err := at.Put(ctx, pb)
-				if err != nil {
-					return err
-				}
-				ra := <-ach
-				if ra.err != nil {
-					return ra.err
-				}
-				for j, pr := range []struct {
-					p    *regattapb.PutRequest
-					resp *regattapb.PutResponse
-				}{{pa, ra.resp}, {pb, respB}} {
-					idx := h.log[len(h.log)-2+j].Index
-					rev := pr.resp.Header.GetRevision()
-					if rev != idx || rev <= lastRev {
-						sum.violate(c, "acknowledged mutation reports a revision that is not its log position", in(), fmt.Sprintf("revision %d index %d previous %d (concurrent pair)", rev, idx, lastRev))
-					}
-					lastRev = idx
-					cmd, _ := wireNormal(gCmd{Kind: regattapb.Command_PUT, K: pr.p.Key, V: pr.p.Value, Prev: pr.p.PrevKv})
-					steps = append(steps, gStep{Kind: 0, Entries: []gEntry{{Idx: idx, Cmd: cmd}}})
-					prev := oL()
-					if pr.resp.PrevKv != nil {
-						prev = oL(oKV(pr.resp.PrevKv))
-					}
-					obs = append(obs, oL(oL(oL(oU(1), oBool(true), oU(rev), oL(oL(oN(1), prev)))), oU(idx)))
-				}
-				continue
-			}
-			switch k := r.Intn(10); {
-			case k < 3: // put
-				p := &regattapb.PutRequest{Table: []byte("t"), Key: g.key(), Value: g.val(), PrevKv: r.Intn(2) == 0}
-				descr = append(descr, fmt.Sprintf("put[%s=%s prev=%v]", q(p.Key), q(p.Value), p.PrevKv))
-				resp, err := at.Put(ctx, p)
-				if err != nil {
-					return err
-				}
-				ho.Inc("put")
-				idx := h.log[len(h.log)-1].Index
-				rev := resp.Header.GetRevision()
-				if rev != idx || rev <= lastRev {
-					sum.violate(c, "acknowledged mutation reports a revision that is not its log position", in(), fmt.Sprintf("revision %d index %d previous %d", rev, idx, lastRev))
-				}
-				lastRev = idx
-				cmd, _ := wireNormal(gCmd{Kind: regattapb.Command_PUT, K: p.Key, V: p.Value, Prev: p.PrevKv})
-				steps = append(steps, gStep{Kind: 0, Entries: []gEntry{{Idx: idx, Cmd: cmd}}})
-				prev := oL()
-				if resp.PrevKv != nil {
-					prev = oL(oKV(resp.PrevKv))
-				}
-				obs = append(obs, oL(oL(oL(oU(1), oBool(true), oU(rev), oL(oL(oN(1), prev)))), oU(idx)))
-			case k < 5: // delete range
-				d := &regattapb.DeleteRangeRequest{Table: []byte("t"), Key: g.key(), RangeEnd: g.end(50), PrevKv: r.Intn(2) == 0, Count: r.Intn(2) == 0}
-				descr = append(descr, fmt.Sprintf("delete[%s,%s prev=%v cnt=%v]", q(d.Key), q(d.RangeEnd), d.PrevKv, d.Count))
-				resp, err := at.Delete(ctx, d)
-				if err != nil {
-					return err
-				}
-				ho.Inc("delete")
-				idx := h.log[len(h.log)-1].Index
-				rev := resp.Header.GetRevision()
-				if rev != idx || rev <= lastRev {
-					sum.violate(c, "acknowledged mutation reports a revision that is not its log position", in(), fmt.Sprintf("revision %d index %d previous %d", rev, idx, lastRev))
-				}
-				lastRev = idx
-				cmd, _ := wireNormal(gCmd{Kind: regattapb.Command_DELETE, K: d.Key, End: d.RangeEnd, Prev: d.PrevKv, Count: d.Count})
-				steps = append(steps, gStep{Kind: 0, Entries: []gEntry{{Idx: idx, Cmd: cmd}}})
-				obs = append(obs, oL(oL(oL(oU(1), oBool(true), oU(rev), oL(oL(oN(2), oN(resp.Deleted), oKVs(resp.PrevKvs))))), oU(idx)))
-			case k < 8: // transaction
-				t := g.txn()
-				if r.Intn(4) == 0 {
-					t.Succ, t.Fail = nil, nil
-				}
-				if r.Intn(5) == 0 { // read-only
-					var su, fa []gOp
-					for _, o := range t.Succ {
-						if o.Kind == 0 {
-							su = append(su, o)
-						}
-					}
-					for _, o := range t.Fail {
-						if o.Kind == 0 {
-							fa = append(fa, o)
-						}
-					}
-					t.Succ, t.Fail = su, fa
-				}
-				req := &regattapb.TxnRequest{Table: []byte("t")}
-				for _, x := range t.Cmps {
-					req.Compare = append(req.Compare, x.pb())
-				}
-				for _, x := range t.Succ {
-					req.Success = append(req.Success, x.pb())
-				}
-				for _, x := range t.Fail {
-					req.Failure = append(req.Failure, x.pb())
-				}
-				descr = append(descr, fmt.Sprintf("txn if%v then%v else%v", t.Cmps, t.Succ, t.Fail))
-				ncalls, nlog := len(h.calls), len(h.log)
-				resp, err := at.Txn(ctx, req)
-				if err != nil {
-					return err
-				}
-				if req.IsReadonly() {
-					ho.Inc("txn-readonly")
-					if len(h.log) != nlog || len(h.calls) != ncalls+1 || h.calls[ncalls] != "sync" {
-						sum.violate(c, "read-only transaction not served through the linearizable read path", in(), fmt.Sprint(h.calls[ncalls:]))
-					}
-					if h.lastRead != len(h.log) {
-						sum.violate(c, "read-only transaction served from a state that misses acknowledged writes", in(), nil)
-					}
-					steps = append(steps, gStep{Kind: 3, Cmps: t.Cmps, Succ: t.Succ, Fail: t.Fail})
-					obs = append(obs, oL(oBool(resp.Succeeded), oResps(resp.Responses)))
-				} else {
-					ho.Inc("txn")
-					idx := h.log[len(h.log)-1].Index
-					rev := resp.Header.GetRevision()
-					executed := t.Succ
-					if !resp.Succeeded {
-						executed = t.Fail
-					}
-					if len(executed) == 0 {
-						emptyBranch = true
-						ho.Inc("txn-empty-branch")
-					}
-					if rev != idx || rev <= lastRev {
-						sum.violate(c, "acknowledged mutation reports a revision that is not its log position", in(), fmt.Sprintf("revision %d index %d previous %d (executed branch has %d operations)", rev, idx, lastRev, len(executed)))
-					}
-					lastRev = idx
-					cmd, _ := wireNormal(gCmd{Kind: regattapb.Command_TXN, Cmps: t.Cmps, Succ: t.Succ, Fail: t.Fail})
-					steps = append(steps, gStep{Kind: 0, Entries: []gEntry{{Idx: idx, Cmd: cmd}}})
-					val := uint64(0)
-					if resp.Succeeded {
-						val = 1
-					}
-					obs = append(obs, oL(oL(oL(oU(val), oBool(true), oU(rev), oResps(resp.Responses))), oU(idx)))
-				}
-			default: // range read
-				rq := g.rng()
-				lin := r.Intn(2) == 0
-				req := &regattapb.RangeRequest{Table: []byte("t"), Key: rq.Key, RangeEnd: rq.End, Limit: rq.Limit, KeysOnly: rq.KeysOnly, CountOnly: rq.CountOnly, Linearizable: lin}
-				descr = append(descr, fmt.Sprintf("%s lin=%v", rq, lin))
-				ncalls := len(h.calls)
-				resp, err := at.Range(ctx, req)
-				if err != nil {
-					return err
-				}
-				got := oL(oKVs(resp.Kvs), oBool(resp.More), oN(resp.Count))
-				if lin {
-					ho.Inc("read-linearizable")
-					if h.calls[ncalls] != "sync" {
-						sum.violate(c, "linearizable read served through the stale read path", in(), nil)
-					}
-					steps = append(steps, gStep{Kind: 1, R: rq})
-					obs = append(obs, got)
-				} else {
-					ho.Inc("read-serializable")
-					if h.lastRead < len(h.log) {
-						lagged = true
-						hl.Inc(fmt.Sprintf("behind-by-%d", len(h.log)-h.lastRead))
-					} else {
-						hl.Inc("behind-by-0")
-					}
-				}
-				// oracle for both: the answer is the answer of the state after the prefix the serving replica had applied
-				ref, err := h.referenceAt(h.lastRead)
-				if err != nil {
-					return err
-				}
-				want, err := ref.read(rq)
-				ref.close()
-				if err != nil {
-					return err
-				}
-				if oRange(want) != got {
-					sum.violate(c, "read does not reflect a prefix of the acknowledged writes", in(), fmt.Sprintf("prefix %d of %d", h.lastRead, len(h.log)))
-				}
-				if lin && h.lastRead != len(h.log) {
-					sum.violate(c, "linearizable read served from a state that misses acknowledged writes", in(), nil)
-				}
-			}
-		}
-		h.close()
-		d := strings.Join(descr, " ; ")
-		normalizeSteps(steps)
-		cf.Add(fmt.Sprintf("{| f_steps := %s; f_impl := %s |}", stepsCoq(steps), oLs(obs)), stepsDescr(steps))
-		if !seen[d] && lagged && emptyBranch {
-			sum.DistinctNontrivial++
-		}
-		seen[d] = true
-		if len(sum.Samples) < 3 && lagged && emptyBranch {
-			sum.Samples = append(sum.Samples, d)
-		}
 	}
 	sum.Evaluations = n
+	if err := runC10ConcurrentReads(sum); err != nil {
+		return err
+	}
 	// one read delivered in several messages is one state too
 	if err := lazyStreamOneState(sum, joinChunks); err != nil {
 		return err
@@ -473,4 +506,65 @@ func runC10(args []string) error {
 	}
 	sum.CasesFiles = names
 	return sum.write(rf.Out, "c10")
+}
+
+type implErr struct {
+	err    error
+	script string
+}
+
+func (e *implErr) Error() string { return e.err.Error() }
+
+// runC10ConcurrentReads: two clients send the SAME linearizable range request; the first one's answer is held back
+// (it was computed before a write), a write is acknowledged, then the second client asks: its answer must contain the
+// write, whatever the first request is still doing.
+func runC10ConcurrentReads(sum *Summary) error {
+	for round := 0; round < 3; round++ {
+		h, err := newSimHost(rand.New(rand.NewSource(int64(77+round))), 1+round)
+		if err != nil {
+			return err
+		}
+		at := table.Table{Name: "t", ClusterID: 10001}.AsActive(h)
+		ctx := context.Background()
+		if _, err := at.Put(ctx, &regattapb.PutRequest{Table: []byte("t"), Key: []byte("k"), Value: []byte("v0")}); err != nil {
+			return err
+		}
+		req := func() *regattapb.RangeRequest {
+			return &regattapb.RangeRequest{Table: []byte("t"), Key: []byte("k"), Linearizable: true}
+		}
+		type res struct {
+			r   *regattapb.RangeResponse
+			err error
+		}
+		h.mu.Lock()
+		h.holdRead, h.readHeld, h.releaseRead = true, make(chan struct{}, 1), make(chan struct{})
+		h.mu.Unlock()
+		aCh, bCh := make(chan res, 1), make(chan res, 1)
+		go func() { r, err := at.Range(ctx, req()); aCh <- res{r, err} }()
+		select {
+		case <-h.readHeld:
+		case <-time.After(10 * time.Second):
+			return fmt.Errorf("harness: the first read never reached the host")
+		}
+		if _, err := at.Put(ctx, &regattapb.PutRequest{Table: []byte("t"), Key: []byte("k"), Value: []byte("v1")}); err != nil {
+			return err
+		}
+		go func() { r, err := at.Range(ctx, req()); bCh <- res{r, err} }()
+		time.Sleep(100 * time.Millisecond)
+		close(h.releaseRead)
+		rb, ra := <-bCh, <-aCh
+		sum.Evaluations++
+		sum.hist("ops").Inc("identical linearizable reads overlapping a write")
+		if rb.err == nil && (len(rb.r.Kvs) != 1 || string(rb.r.Kvs[0].Value) != "v1") {
+			got := "nothing"
+			if len(rb.r.Kvs) == 1 {
+				got = string(rb.r.Kvs[0].Value)
+			}
+			sum.violate(880000+round, "linearizable read served from a state that misses acknowledged writes", map[string]any{"script": "put k=v0 ; client A: linearizable range k (answer delayed) ; put k=v1 acknowledged ; client B: the same linearizable range k"},
+				fmt.Sprintf("client B read %s", got))
+		}
+		_ = ra
+		h.close()
+	}
+	return nil
 }
